@@ -111,6 +111,10 @@ func (mv *MessageView) SnapshotRequest(req *http.Request) error {
 		return nil
 	}
 
+	// http.NoBody tells net/http that the length is known to be zero; keep it,
+	// otherwise e.g. a POST with Content-Length: 0 is forwarded chunked.
+	nobody := req.Body == http.NoBody
+
 	data, err := ioutil.ReadAll(req.Body)
 	if err != nil {
 		return err
@@ -127,7 +131,11 @@ func (mv *MessageView) SnapshotRequest(req *http.Request) error {
 
 	mv.traileroffset = int64(buf.Len())
 
-	req.Body = ioutil.NopCloser(bytes.NewReader(data))
+	if nobody {
+		req.Body = http.NoBody
+	} else {
+		req.Body = ioutil.NopCloser(bytes.NewReader(data))
+	}
 
 	if req.Trailer != nil {
 		req.Trailer.Write(buf)
@@ -178,6 +186,10 @@ func (mv *MessageView) SnapshotResponse(res *http.Response) error {
 		return nil
 	}
 
+	// http.NoBody tells net/http that the length is known to be zero; keep it,
+	// otherwise e.g. a POST with Content-Length: 0 is forwarded chunked.
+	nobody := res.Body == http.NoBody
+
 	data, err := ioutil.ReadAll(res.Body)
 	if err != nil {
 		return err
@@ -194,7 +206,11 @@ func (mv *MessageView) SnapshotResponse(res *http.Response) error {
 
 	mv.traileroffset = int64(buf.Len())
 
-	res.Body = ioutil.NopCloser(bytes.NewReader(data))
+	if nobody {
+		res.Body = http.NoBody
+	} else {
+		res.Body = ioutil.NopCloser(bytes.NewReader(data))
+	}
 
 	if res.Trailer != nil {
 		res.Trailer.Write(buf)
